@@ -103,6 +103,62 @@ def close_visible():
                 pass
 
 
+def send_after_disconnect(k_cut, nsegs):
+    """Over TCP loopback: the peer sends complete messages and the first k_cut bytes of another one, then disconnects; the local
+    side, which has not looked at its input yet, writes ONE message to the connection (that write succeeds and reports
+    nothing), and only then drains its input.  It must get exactly the complete messages, a silent end of the iteration and
+    a closed port."""
+    import time
+    import mido
+    from mido.sockets import connect
+    complete = [mido.Message('note_on', channel=3, note=60, velocity=100), mido.Message('sysex', data=[1, 2, 3, 4, 5]),
+                mido.Message('pitchwheel', channel=1, pitch=-200)]
+    stream = b''.join(m.bin() for m in complete) + mido.Message('control_change', control=7, value=99).bin()[:k_cut]
+    try:
+        listener = socket.socket(socket.AF_INET, socket.SOCK_STREAM)
+        listener.bind(('127.0.0.1', 0))
+        listener.listen(1)
+        port = connect('127.0.0.1', listener.getsockname()[1])
+        peer, _ = listener.accept()
+        listener.close()
+    except OSError:
+        return None          # no loopback networking in this sandbox: nothing to judge
+    got = []
+    fail = None
+    try:
+        step = max(1, len(stream) // max(1, nsegs))
+        for i in range(0, len(stream), step):
+            peer.sendall(stream[i:i + step])
+            time.sleep(0.02)
+        peer.close()
+        time.sleep(0.3)
+        try:
+            port.send(mido.Message('note_on', note=1, velocity=1))
+        except OSError:
+            return None      # the kernel already reported the broken connection to the writer: another scenario
+        time.sleep(0.3)
+        with portsim.patched_sleep(limit=200):
+            try:
+                for m in port:
+                    got.append(m)
+            except portsim.Hang:
+                fail = 'iteration over the socket port did not end after the peer disconnected'
+            except Exception as e:
+                fail = (f'after the peer disconnected and the local side wrote one message, iteration raised {type(e).__name__}: {e} '
+                        f'(after yielding {len(got)} messages) instead of ending quietly')
+        if fail is None and got != complete:
+            fail = f'after the peer disconnected and the local side wrote one message, the port yielded {got!r}, the complete messages are {complete!r}'
+        if fail is None and not port.closed:
+            fail = 'the port does not report itself closed after the disconnect (one local write in between)'
+    finally:
+        for x in (port, peer):
+            try:
+                x.close()
+            except Exception:
+                pass
+    return fail
+
+
 def burst_msgs(n, base):
     """messages whose encodings total exactly n bytes: note_ons and (n % 3) clock bytes"""
     import mido
@@ -475,6 +531,12 @@ def run(ck):
         f = close_while_receiving(action)
         if f:
             ck.oracle_fail({'two_threads': action}, f)
+    for k_cut, nsegs in ([(0, 1), (2, 3)] if ck.tier == 'quick' else [(0, 1), (1, 2), (2, 3), (2, 9)]):
+        ck.evaluations += 1
+        ck.count('send_after_disconnect')
+        f = send_after_disconnect(k_cut, nsegs)
+        if f:
+            ck.oracle_fail({'send_after_disconnect': [k_cut, nsegs]}, f)
     for leave in ([2, 6] if ck.tier == 'quick' else [1, 2, 3, 6, 20, 100]):
         ck.evaluations += 1
         ck.count('server_client_leaves')
@@ -496,6 +558,8 @@ def run(ck):
 
 
 def oracle(case):
+    if 'send_after_disconnect' in case:
+        return send_after_disconnect(*case['send_after_disconnect'])
     if 'close_visible' in case:
         return close_visible()
     if 'two_ports' in case:
